@@ -27,3 +27,8 @@ package common
 //@   props C03 C10
 //@   definitional
 //@   ensures[be32] len(result) == 4 && off(result) == 0 && fresh(ref(result)) && bytesOf(seq(result), 4) == beNB(num, 4)
+
+//@ func Uint64ToBigEndianBytes
+//@   props C10
+//@   definitional
+//@   ensures[be64] len(result) == 8 && off(result) == 0 && fresh(ref(result)) && bytesOf(seq(result), 8) == beNB(num, 8)
